@@ -494,8 +494,8 @@ fn gen_c13(sink: &mut Sink, tier: &str, seed: u64) {
         if minicbor::Encoder::new(&mut reference).tokens(toks.iter()).is_err() { continue }
         sink.distinct_inputs += 1;
         let len = reference.len();
-        for kind in ["slice", "cslice", "carray", "cbox", "vec", "iow"] {
-            let caps: Vec<usize> = if kind == "vec" || kind == "iow" { vec![0] }
+        for kind in ["slice", "cslice", "carray", "cbox", "vec", "iow", "iowslice", "iowchunk"] {
+            let caps: Vec<usize> = if kind == "vec" || kind == "iow" || kind == "iowchunk" { vec![0] }
                 else if len <= 40 || tier == "thorough" { (0..=len + 1).collect() }
                 else { vec![0, 1, len / 2, len - 1, len, len + 1] };
             for cap in caps {
